@@ -224,6 +224,59 @@ def run (ctx):
              "token = object()" if fresh else ("the token `%s` is computed from the current set (%s): after take, take, release, take two outstanding deferrals share a token - one release "
              "withdraws both and UpEvent is raised while a deferral is still held" % (norm(tv), norm(tdef)) if derived else "token `%s` not recognised as fresh" % norm(tdef)), (mod, adds[0]), 'D6')
       ctx.ob('R-AGREE', gd, "the closure releases the token it registered", tok and tok[0] == norm(tv), "add(%s) / remove(%s)" % (norm(tv), tok[0] if tok else None), (mod, adds[0]), 'D6')
+  # stage 2 runs once, on whichever thread releases the last deferral, and nothing retries it: whatever runs before its
+  # raiseEvent(UpEvent()) must not be able to abort it with an explicit raise
+  def explicit_raises (fn, depth=0, seen=None):
+    seen = seen or set()
+    if fn in seen: return []
+    seen.add(fn)
+    fg = q.cfg_of(fn); out = []
+    for n in fg.nodes:
+      if n.kind == 'raise_stmt' and n.ast.exc is not None and fg.raises_out(n): out.append((fn, n))
+    if depth < 2:
+      for c in calls_in(fn.node):
+        if isinstance(c.func, ast.Attribute) and norm(c.func.value) == 'self':
+          cal = core.find_method(call_name(c))
+          cn_ = q.enclosing_stmt_node(fg, c)
+          if cal is not None and cn_ is not None and fg.raises_out(cn_): out += explicit_raises(cal, depth + 1, seen)
+    return out
+  g2 = q.cfg_of(st2)
+  upn = [q.enclosing_stmt_node(g2, c) for f, c in sites.get('UpEvent', []) if f is st2]
+  if upn and upn[0] is not None:
+    early = []
+    for n in g2.nodes:
+      if n is upn[0] or not g2.dominates(n, upn[0]): continue
+      for c in q.node_calls(n):
+        if isinstance(c.func, ast.Attribute) and norm(c.func.value) == 'self':
+          cal = core.find_method(call_name(c))
+          if cal is not None and g2.raises_out(n):
+            rs_ = explicit_raises(cal)
+            if rs_: early.append((c, cal, rs_[0]))
+    ctx.ob('R-ORDER', st2, "nothing that can abort stage 2 precedes raiseEvent(UpEvent())", not early, "UpEvent is raised first" if not early else
+           "`%s` runs before UpEvent is raised and can leave by `%s` (%s:%s): stage 2 runs on whichever thread releases the last deferral and is never retried, so UpEvent is then never raised"
+           % (norm(early[0][0])[:40], early[0][2][1].text(60), early[0][2][0].name, early[0][2][1].line), (mod, early[0][0]) if early else st2, 'D6')
+  # readiness is decided by membership (hasComponent); the wiring then fetches each component through core.<name>: that
+  # lookup must succeed for every registered object, also one that is falsy (an empty container-like component)
+  ga = core.methods.get('__getattr__')
+  if ga is not None:
+    ctx.analysed(ga); gg_ = q.cfg_of(ga)
+    FALSY = []
+    is_get = lambda e: isinstance(e, ast.Call) and call_name(e) == 'get' and norm(e.func.value) == 'self.components'
+    is_idx = lambda e: isinstance(e, ast.Subscript) and norm(e.value) == 'self.components'
+    is_in = lambda e: isinstance(e, ast.Compare) and len(e.ops) == 1 and isinstance(e.ops[0], ast.In) and norm(e.comparators[0]) == 'self.components'
+    is_nin = lambda e: isinstance(e, ast.Compare) and len(e.ops) == 1 and isinstance(e.ops[0], ast.NotIn) and norm(e.comparators[0]) == 'self.components'
+    env_ = q.Env({ga.params[1]: 'comp'}, [(is_get, FALSY), (is_idx, FALSY), (is_in, True), (is_nin, False)])
+    ends = [n for n in gg_.nodes if n.kind in ('return', 'raise_stmt')]
+    outs = set()
+    for p_, e_ in q.paths_under(repo, mod, gg_, env_, gg_.entry, ends, core, limit=40):
+      outs.add(p_[-1].kind)
+    if outs:
+      ctx.ob('R-AGREE', ga, "core.<name> finds every registered component, whatever its truth value", outs == {'return'},
+             "a registered component that is falsy is still returned" if outs == {'return'} else
+             "for a registered component whose truth value is False (e.g. an empty topology) core.<name> ends in %s: hasComponent() reports it ready, the waiter entry is removed, and the wiring closure then fails on the lookup - the dependent is never wired"
+             % sorted(outs), ga, 'D3')
+    else:
+      ctx.undecided('R-AGREE', ga, "core.<name> finds every registered component", "lookup not evaluable", ga, 'D3')
   # goUp: holds a deferral across GoingUp
   g = q.cfg_of(goup)
   take = [q.enclosing_stmt_node(g, s_) for t, v, s_, k in q.stores_in(goup.node, nested=False) if isinstance(v, ast.Call) and call_name(v) == '_get_go_up_deferral' and isinstance(t, ast.Name)]
